@@ -228,6 +228,32 @@ func govcSuccessNotRerun() string {
 	return ""
 }
 
+// govcExitWakes: a waiter blocked in WaitExited is woken by the exit of the current instance, also when the
+// backoff gives up (NextBackOff() == Stop), and the exit callback sees every exit.
+func govcExitWakes() string {
+	var cbs atomic.Int32
+	rc := NewRoutineContainer(WithBackoff(&govcConstBackoff{d: -1}), WithExitCb(func(err error) { cbs.Add(1) })) // -1 == backoff.Stop
+	rc.SetContext(context.Background(), false)
+	release := make(chan struct{})
+	rc.SetRoutine(func(ctx context.Context) error { <-release; return errors.New("boom") })
+	time.Sleep(20 * time.Millisecond)
+	got := make(chan error, 1)
+	wctx, cancel := context.WithTimeout(context.Background(), 2*time.Second)
+	defer cancel()
+	go func() { got <- rc.WaitExited(wctx, false, nil) }()
+	time.Sleep(50 * time.Millisecond)
+	close(release)
+	err := <-got
+	if err == nil || err.Error() != "boom" {
+		return fmt.Sprintf("a routine failed after its backoff gave up while WaitExited was waiting: the waiter was not woken by the exit (it returned %v after its own 2 s timeout)", err)
+	}
+	time.Sleep(50 * time.Millisecond)
+	if cbs.Load() != 1 {
+		return fmt.Sprintf("one exit, %d exit callback calls", cbs.Load())
+	}
+	return ""
+}
+
 type govcConstBackoff struct{ d time.Duration }
 
 func (b *govcConstBackoff) NextBackOff() time.Duration { return b.d }
@@ -252,6 +278,8 @@ func TestGovcReplay(t *testing.T) {
 		scenarios = []func() string{govcSetNil, govcClearContext, govcThreeRoutines}
 	case strings.Contains(rf.Obligation, "StateRoutineContainer"):
 		scenarios = []func() string{govcStateConcurrent}
+	case strings.Contains(rf.Obligation, ".TE") || strings.Contains(rf.Obligation, "noexit"):
+		scenarios = []func() string{govcExitWakes}
 	case strings.Contains(rf.Obligation, ".T1") || strings.Contains(rf.Obligation, "execute$1$1") || strings.Contains(rf.Obligation, "rerun") || strings.Contains(rf.Obligation, "onlyrestart"):
 		scenarios = []func() string{govcRetry, govcSuccessNotRerun}
 	}
